@@ -207,6 +207,13 @@ async def judge_step(handler, parse_message, supported, wire, v, count, bad, car
         if kind == "supported":
             bad({"class": "supported-request-rejected", "request_kind": kind},
                 f"initialize for a supported version was rejected: {d['error']!r}", wire)
+        else:
+            # "... and otherwise with a version it does support": an error is not such an answer
+            n_sessions = len(handler.session_manager.list_sessions())
+            bad({"class": "error-instead-of-counter-proposal", "request_kind": kind,
+                 "code": d["error"].get("code")},
+                f"requested {v!r}: the server answered with the error {d['error']!r} instead of a version it supports "
+                f"(sessions in the store: {n_sessions})", wire)
         count("answer:error")
         return {"tag": "error", "sid": None, "answered": ABSENT}
     result = d.get("result")
@@ -251,7 +258,39 @@ async def judge_step(handler, parse_message, supported, wire, v, count, bad, car
             count("session-version-equals-answer")
     if not isinstance(result, dict):
         bad({"class": "initialize-invalid-response", "request_kind": kind}, f"result is {result!r}", wire)
-    return {"tag": tag, "sid": sid if isinstance(sid, str) else None, "answered": answered}
+    snap = _snapshot(resp)
+    if _snapshot(resp) != snap:
+        bad({"class": "response-dump-unstable", "request_kind": kind}, f"two dumps of the same response differ: {snap}", wire)
+    return {"tag": tag, "sid": sid if isinstance(sid, str) else None, "answered": answered, "resp": resp, "snap": snap}
+
+
+def _snapshot(resp) -> str:
+    """The response as it would be serialised now (null members kept), as canonical JSON text."""
+    try:
+        return json.dumps(resp.model_dump(), sort_keys=True, default=repr)
+    except Exception as e:  # noqa: BLE001
+        return "<undumpable: %s>" % type(e).__name__
+
+
+def check_held_response(r: Dict[str, Any], handler, bad, wire, when: str):
+    """A response object the caller still holds must not change when later messages are handled, and must still say
+    what the session recorded for it says."""
+    if r.get("resp") is None:
+        return
+    now = _snapshot(r["resp"])
+    if now != r["snap"]:
+        raw = getattr(r["resp"], "result", None)
+        pv = raw.get("protocolVersion", ABSENT) if isinstance(raw, dict) else ABSENT
+        bad({"class": "held-response-changed", "when": when,
+             "member": "protocolVersion" if not strict_eq(pv, r["answered"]) else "other"},
+            f"the response object of the earlier initialize changed {when}: it was {r['snap']}, it is now {now}", wire)
+        return
+    s1 = handler.session_manager.get_session(r["sid"]) if r.get("sid") else None
+    raw = getattr(r["resp"], "result", None)
+    pv = raw.get("protocolVersion", ABSENT) if isinstance(raw, dict) else ABSENT
+    if s1 is not None and not r.get("sid_taken_over") and not strict_eq(pv, s1.protocol_version):
+        bad({"class": "held-response-disagrees-with-its-session", "when": when},
+            f"the earlier response says {pv!r}, its session now records {s1.protocol_version!r}", wire)
 
 
 def _handler_factory():
@@ -503,6 +542,14 @@ def run_twostep(cfg) -> Dict[str, Any]:
         r2 = await judge_step(handler, parse_message, supported, w2, v2, count, bad, carried=carried, fresh=False,
                               prev_answer=r1["answered"])
         out["r1"], out["r2"] = r1, r2
+        r1["sid_taken_over"] = bool(r1["sid"]) and r1["sid"] == r2["sid"]
+        check_held_response(r1, handler, bad, w2, "after-a-second-initialize")
+        # ... and after traffic that mutates nothing
+        await handler.handle_message(parse_message({"jsonrpc": "2.0", "id": 8, "method": "ping"}), r2["sid"])
+        await handler.handle_message(parse_message({"jsonrpc": "2.0", "method": "notifications/initialized"}), r2["sid"])
+        check_held_response(r1, handler, bad, w2, "after-ping-and-initialized")
+        r2["sid_taken_over"] = False
+        check_held_response(r2, handler, bad, w2, "after-ping-and-initialized")
         # the first answer's session must still be what was answered then, unless the second initialize took over that id
         if r1["sid"] and r2["sid"] and r1["sid"] != r2["sid"]:
             s1 = handler.session_manager.get_session(r1["sid"])
